@@ -61,6 +61,10 @@ pub fn packet_kinds() -> Vec<(&'static str, Vec<u8>)> {
         ("fin-rst", c2s(FIN | RST, 1001, &[], None, false)),
         ("no-flags", c2s(0, 1001, b"x", None, false)),
         ("fragment", pkt::build(&frag)),
+        // datagrams with the more-fragments bit / a fragment offset that carry a complete ClientHello or request: the TCP
+        // analyzer refuses them, the HTTP and TLS analyzers do not
+        ("clienthello-in-fragment", pkt::build(&Spec { src: 1, sport: 40000, dst: 2, dport: 80, flags: ACK | PSH, seq: 1001, ack: 5001, mf: true, payload: hello.clone(), ..Spec::default() })),
+        ("http-request-in-fragment", pkt::build(&Spec { src: 1, sport: 40000, dst: 2, dport: 80, flags: ACK | PSH, seq: 1001, ack: 5001, mf: true, payload: req.to_vec(), ..Spec::default() })),
         ("udp", udp),
         ("truncated", truncated),
         ("syn-v6", pkt::frame(Link::Ethernet, &pkt::build(&Spec { v6: true, src: 1, sport: 40000, dst: 2, dport: 80, flags: SYN, opts: vec![2, 4, 5, 0xa0], ..Spec::default() }))),
@@ -221,7 +225,7 @@ pub fn check_trace(r: &mut Report, kinds: &[(&str, Vec<u8>)], trace: &[usize], c
 
 /// link-layer framings, incl. Ethernet frames whose MAC addresses another framing would also accept (raw IPv4 / IPv6
 /// header, NULL/loopback header of either family): every analyzer has its own copy of the frame parser
-pub const FRAMINGS: [&str; 8] = ["ethernet", "loopback-1e", "macs-like-ipv4-header", "macs-like-ipv6-header", "macs-like-loopback-1e-then-ipv4", "macs-like-loopback-1e-then-ipv6", "macs-like-loopback-02", "macs-like-loopback-18"];
+pub const FRAMINGS: [&str; 10] = ["ethernet", "loopback-1e", "macs-like-ipv4-header", "macs-like-ipv6-header", "macs-like-loopback-1e-then-ipv4", "macs-like-loopback-1e-then-ipv6", "macs-like-loopback-02", "macs-like-loopback-18", "vlan-8100", "vlan-88a8"];
 fn reframe(framing: usize, ip: &[u8]) -> Vec<u8> {
     let macs: Option<[u8; 12]> = match framing {
         2 => Some([0x45, 0, 0, 0x28, 0, 0, 0x40, 0, 0x40, 0x06, 0, 0]),
@@ -234,6 +238,8 @@ fn reframe(framing: usize, ip: &[u8]) -> Vec<u8> {
     };
     match (framing, macs) {
         (1, _) => pkt::frame(Link::Null(0x1e), ip),
+        (8, _) => pkt::frame(Link::Vlan(0x8100), ip),
+        (9, _) => pkt::frame(Link::Vlan(0x88a8), ip),
         (_, Some(m)) => {
             let mut f = pkt::frame(Link::Ethernet, ip);
             f[..12].copy_from_slice(&m);
@@ -305,7 +311,7 @@ pub fn run(thorough: bool) -> Outcome {
     });
     Outcome {
         report: rep,
-        rule: "every trace of <= 4 packets (5 thorough) over 14 packet kinds (SYN/SYN+ACK/ACK with timestamps, HTTP request, HTTP response, ClientHello whole and in two parts, FIN+RST, no flags, IPv4 fragment, UDP, truncated frame, Ethernet-framed IPv6 SYN) x 16 switch combinations x with/without database, unified analyzer vs stand-alone TCP / HTTP / stateless TLS processors in lock step under the injected clock; distinct = distinct unified outcomes".into(),
+        rule: "every trace of <= 4 packets (5 thorough) over 16 packet kinds (SYN/SYN+ACK/ACK with timestamps, HTTP request, HTTP response, ClientHello whole and in two parts, FIN+RST, no flags, IPv4 fragment, UDP, truncated frame, Ethernet-framed IPv6 SYN) x 16 switch combinations x with/without database, unified analyzer vs stand-alone TCP / HTTP / stateless TLS processors in lock step under the injected clock; distinct = distinct unified outcomes".into(),
         exhaustive: true,
         bounds: json!({"traces": traces.len(), "configurations": cfgs.len(), "max_depth": depth}),
     }
